@@ -28,7 +28,12 @@ Inner == { <<"pre", o, x>> : o \in {"minus", "user_fy", "user_fx", "naf"}, x \in
          \cup { <<"post", o, x>> : o \in PostfixOps, x \in {<<"atom", "alnum">>, <<"num", "int_pos">>} }
 Depth2 == One(Inner) \cup { <<"inf", o, x, y>> : o \in InfixOps, x \in Inner, y \in {<<"atom", "alnum">>} }
                      \cup { <<"inf", o, x, y>> : o \in InfixOps, x \in {<<"atom", "alnum">>}, y \in Inner }
-Terms == Leaf \cup Depth1 \cup (IF DEPTH >= 2 THEN Depth2 ELSE {})
+\* the SAME sub-term (one object at run time: a variable bound to it occurs twice) at two positions, neither inside the other;
+\* two equal double-quoted strings (whose identity, in this implementation, is their text)
+ShareInner == { <<"cmp1", <<"atom", "alnum">>>>, <<"list1", <<"atom", "alnum">>>>, <<"curly", <<"atom", "alnum">>>>, <<"inf", "minus", <<"atom", "alnum">>, <<"num", "int_pos">>>>,
+                <<"list2", <<"atom", "alnum">>, <<"var">>>> }
+Sharing == { <<"share2", x>> : x \in ShareInner } \cup { <<"sharelist", x>> : x \in ShareInner } \cup { <<"shareop", x>> : x \in ShareInner } \cup { <<"dqpair">> }
+Terms == Leaf \cup Depth1 \cup Sharing \cup (IF DEPTH >= 2 THEN Depth2 ELSE {})
 \* operator tables: the default one and tables after redefining some of the operators used above
 Tables == {"default", "user_ops", "minus_weak", "eq_removed", "comma_like"}
 Writers == {"writeq", "write_canonical", "quoted", "quoted_ignore_ops"}
